@@ -283,6 +283,53 @@ Section Chain.
     end.
 End Chain.
 
+(** Links that also carry state-dependent delay adapters: adapters.DelayToPull(steps, additional_delay)
+    answers with the time of an earlier pull (adapters/time.py 184-204). *)
+Inductive sadapter : Type :=
+| SPlain (a : adapter)
+| SDelayPull (steps : nat) (extra init : Z).
+
+(** [with_delay]: an empty history is first filled with the initial time; the oldest remembered
+    pull time minus the extra delay, clamped at the initial time. *)
+Definition dtp_with_delay (extra init : Z) (h : list Z) : list Z * Z :=
+  let h' := match h with [] => [init] | _ => h end in
+  let t0 := hd init h' in
+  (h', if t0 - extra <? init then init else t0 - extra).
+
+(** [_pulled]: remember the original request time, keep the last [steps] entries. *)
+Definition dtp_pulled (steps : nat) (h : list Z) (t : Z) : list Z :=
+  let h' := h ++ [t] in skipn (length h' - steps) h'.
+
+Section ChainSt.
+  Context {St : Type}.
+  Context (src : St -> Z -> St * res Q).
+  Context (note : nat -> Z -> St -> St).
+  (** pull history [_pulls] of the DelayToPull adapter [id] *)
+  Context (hist : nat -> St -> list Z).
+  Context (set_hist : nat -> list Z -> St -> St).
+
+  (** TimeDelayAdapter.get_data 380-413: new_time = with_delay(time); pull upstream; only after a
+      successful pull [_pulled(time)] records the ORIGINAL request time. *)
+  Fixpoint pull_chain_st (c : list (nat * sadapter)) (s : St) (t : Z) : St * res Q :=
+    match c with
+    | [] => src s t
+    | (id, SPlain a) :: r =>
+        let '(s', x) := pull_chain_st r (note id t s) (with_delay a t) in
+        (s', map_res (ascale a) x)
+    | (id, SDelayPull steps extra init) :: r =>
+        let s0 := note id t s in
+        let '(h', t') := dtp_with_delay extra init (hist id s0) in
+        let '(s2, x) := pull_chain_st r (set_hist id h' s0) t' in
+        match x with
+        | Ok q => (set_hist id (dtp_pulled steps (hist id s2) t) s2, Ok q)
+        | Err e => (s2, Err e)
+        end
+    end.
+End ChainSt.
+
+Definition plain_chain (c : list (nat * adapter)) : list (nat * sadapter) :=
+  map (fun x => (fst x, SPlain (snd x))) c.
+
 (* ------------------------------------------------------------------------- *)
 (** * 4. WeightedSum with its memo *)
 
@@ -384,7 +431,7 @@ End WS.
 
 (** an input of a component: registered at its source output under [e_key]; the adapter chain
     is listed from the input towards the source node [e_src] *)
-Record edge : Type := mkE { e_key : nat; e_chain : list (nat * adapter); e_src : nat }.
+Record edge : Type := mkE { e_key : nat; e_chain : list (nat * sadapter); e_src : nat }.
 
 Inductive node : Type :=
 | NOut (u : Q) (keys : list nat)            (* push-based output of a time component, units factor u *)
@@ -414,18 +461,33 @@ Record nst : Type := mkN {
   n_nodes : list nodest;
   n_exch : list nat;               (* per node: successful get_info calls *)
   n_cache : list (option Q);       (* per consumer edge: static input cache *)
-  n_log : list lentry              (* newest first *)
+  n_log : list lentry;             (* newest first *)
+  n_adp : list (nat * list Z)      (* DelayToPull adapters: id -> _pulls *)
 }.
 
 Definition add_log (x : lentry) (st : nst) : nst :=
-  mkN (n_nodes st) (n_exch st) (n_cache st) (x :: n_log st).
+  mkN (n_nodes st) (n_exch st) (n_cache st) (x :: n_log st) (n_adp st).
 Definition set_node (st : nst) (n : nat) (x : nodest) : nst :=
-  mkN (set_nth n x (n_nodes st)) (n_exch st) (n_cache st) (n_log st).
+  mkN (set_nth n x (n_nodes st)) (n_exch st) (n_cache st) (n_log st) (n_adp st).
 Definition set_cache (st : nst) (c : list (option Q)) : nst :=
-  mkN (n_nodes st) (n_exch st) c (n_log st).
+  mkN (n_nodes st) (n_exch st) c (n_log st) (n_adp st).
 Definition clear_log (st : nst) : nst :=
-  mkN (n_nodes st) (n_exch st) (n_cache st) [].
+  mkN (n_nodes st) (n_exch st) (n_cache st) [] (n_adp st).
 Definition exch_of (st : nst) (n : nat) : nat := nth n (n_exch st) O.
+
+Fixpoint adp_get (id : nat) (l : list (nat * list Z)) : list Z :=
+  match l with
+  | [] => []
+  | (k, h) :: r => if Nat.eqb k id then h else adp_get id r
+  end.
+Fixpoint adp_set (id : nat) (h : list Z) (l : list (nat * list Z)) : list (nat * list Z) :=
+  match l with
+  | [] => [(id, h)]
+  | (k, h') :: r => if Nat.eqb k id then (k, h) :: r else (k, h') :: adp_set id h r
+  end.
+Definition hist_of (id : nat) (st : nst) : list Z := adp_get id (n_adp st).
+Definition set_hist_of (id : nat) (h : list Z) (st : nst) : nst :=
+  mkN (n_nodes st) (n_exch st) (n_cache st) (n_log st) (adp_set id h (n_adp st)).
 
 Definition conv_res (r : OutputM.res Q) : res Q :=
   match r with
@@ -451,9 +513,10 @@ Fixpoint value_units (net : list node) (ins : list edge) : list Q :=
 
 Definition pull_edge (ev : nst -> nat -> nat -> Z -> nst * res Q) (st : nst) (e : edge) (t : Z)
   : nst * res Q :=
-  pull_chain (fun s t' => ev s (e_src e) (e_key e) t')
-             (fun id t' s => add_log (2%nat, id, t') s)
-             (e_chain e) st t.
+  pull_chain_st (fun s t' => ev s (e_src e) (e_key e) t')
+                (fun id t' s => add_log (2%nat, id, t') s)
+                hist_of set_hist_of
+                (e_chain e) st t.
 
 (** [eval fuel net st n key t]: [get_data(t, key)] arrives at the output of node [n]. *)
 Fixpoint eval (fuel : nat) (net : list node) (st : nst) (n key : nat) (t : Z) : nst * res Q :=
@@ -511,7 +574,7 @@ Definition inc_nth (n : nat) (l : list nat) : list nat := set_nth n (S (nth n l 
 Definition nstep (net : list node) (cedges : list (edge * bool)) (st : nst) (o : nop) : nst * nobs :=
   let st := clear_log st in
   match o with
-  | OInfo n => (mkN (n_nodes st) (inc_nth n (n_exch st)) (n_cache st) [], (Ok 0%Q, []))
+  | OInfo n => (mkN (n_nodes st) (inc_nth n (n_exch st)) (n_cache st) [] (n_adp st), (Ok 0%Q, []))
   | OPub n t v =>
       match nth_error net n, nth_error (n_nodes st) n with
       | Some (NOut u keys), Some (SOut s) =>
@@ -570,7 +633,7 @@ Definition node_init (n : node) : nodest :=
   end.
 
 Definition net_init (net : list node) (cedges : list (edge * bool)) : nst :=
-  mkN (map node_init net) (repeat O (length net)) (repeat None (length cedges)) [].
+  mkN (map node_init net) (repeat O (length net)) (repeat None (length cedges)) [] [].
 
 (* ------------------------------------------------------------------------- *)
 (** * Correspondence interface *)
